@@ -150,6 +150,22 @@ def run(chk):
             if n_w in (300, 16500):
                 chk.sample({'send': n, 'observed': o, 'bytes': bytes(b).hex() if o == 'bytes' else b})
 
+    # -- 2b. thorough: every n < 2^21 through the real writer / reader / size (the model covers them all in TLC;
+    #        the rows printed for replay stop at 2^14 plus corners)
+    if tier == 'thorough':
+        swept = 0
+        for n in range(1 << 21):
+            sink = Sink()
+            types.VarInt.send(n, sink)
+            b = sink.value()
+            exp = bytes(core.limbs(n)[:-1] and [d | 0x80 for d in core.limbs(n)[:-1]] + [core.limbs(n)[-1]] or [n])
+            if b != exp or types.VarInt.size(n) != len(b) or types.VarInt.read(CountingStream(b)) != n:
+                chk.violation('VarInt:sweep', 'n = %d: send gives %s, size %r' % (n, b.hex(), types.VarInt.size(n)), {'n': n})
+                break
+            swept += 1
+        chk.evaluations += swept
+        chk.extra['swept_below_2^21'] = swept
+
     # -- 3. I->S: random long inputs judged by the contract in TLC
     obs = []
     n_rand = 3000 if tier == 'quick' else 40000
